@@ -94,6 +94,10 @@ def construct(cls):
 
 def parse(cls, node):
     """cls.from_node(node) with the optional extra arguments of containers left at their defaults"""
+    if cls is mex_types.Metadata:       # its from_node takes the PARENT (soap body) of the wsx:Metadata element
+        body = etree.Element('Body')
+        body.append(node)
+        return cls.from_node(body)
     return cls.from_node(node)
 
 
